@@ -337,8 +337,8 @@ def main(argv=None):
                   assumptions=prop.assumptions, wall_s=float(wall), violations=len(violations))
         if harness_errors:
             print('HARNESS-ERROR', len(harness_errors))
-            for h in harness_errors[:6]:
-                print(h)
+            for h in harness_errors[:2]:
+                print(h[-1500:])
             return 2
         if not a.no_evidence and not only:
             try:
